@@ -91,17 +91,33 @@ def run(ctx, rep, tier):
     samples = []
     n_fam = 0
     t0 = time.process_time()
-    budget = (900 if tier == "quick" else 9000) * float(os.environ.get("VERIF_BUDGET_SCALE", "1"))
+    budget = (900 if tier == "quick" else 6000) * float(os.environ.get("VERIF_BUDGET_SCALE", "1"))
     fams = list(families(tier, ("octal", "digits", "words"))) + list(families(tier, ("any", "kwarg"))) + list(families(tier, ("long",)))
+    only = os.environ.get("VERIF_C03_ONLY")
+    quick_names = {n_ for n_, _, _ in list(families("quick", ("octal", "digits", "words"))) + list(families("quick", ("any", "kwarg"))) +
+                   list(families("quick", ("long",)))}
+    not_decided = []
     for name, spec, assume in fams:
+        if only and name not in only.split(","):
+            continue
         if time.process_time() - t0 > budget:
             rep.coverage["truncated_at_family"] = name
             break
+        vlib.log("[c03] family %-22s cpu=%.0fs" % (name, time.process_time() - t0))
         profiles = ("dev", "rel")
         if name.startswith("long") or (tier == "quick" and (("+" in name and not name.endswith("d") and "unit" not in name and name[0] == "-") or name in ("any4",))):
             profiles = ("dev",)          # keyword + arbitrary argument: the profiles differ only in arithmetic and cfg arms
         for profile in profiles:
-            r, panics, n_ok, n_err = explore(B, spec, assume, profile)
+            try:
+                r, panics, n_ok, n_err = explore(B, spec, assume, profile)
+            except Inconclusive as e:
+                # a family of the thorough tier only that exceeds the engine's capacity (path explosion) is not decided: it is listed,
+                # not claimed; families of the quick tier and unmodelled constructs stay inconclusive
+                if name not in quick_names and any(k in str(e) for k in ("too many", "step budget exceeded")):
+                    not_decided.append(dict(family=name, profile=profile, reason=str(e).splitlines()[0][-120:]))
+                    vlib.log("[c03] family %s (%s) NOT DECIDED: %s" % (name, profile, str(e).splitlines()[0][-120:]))
+                    continue
+                raise
             n_fam += 1
             by_class = {}
             for g, stage, p in panics:
@@ -124,7 +140,7 @@ def run(ctx, rep, tier):
                "pairs (all strings up to 4 (6) code points; every argument-taking keyword with 0..2 (4) arbitrary characters; decimal strings up "
                "to 21 (40) digits after numeric keywords with and without unit; octal strings up to 12 (14) digits; slot-aligned word "
                "sequences); z3 decides reachability of every panic outcome; panics are classified by site and message" % n_fam,
-               bounds=dict(any_len=4 if tier == "quick" else 5, families=n_fam), samples=samples,
+               bounds=dict(any_len=4 if tier == "quick" else 5, families=n_fam, families_not_decided_engine_capacity=not_decided), samples=samples,
                outside="inputs longer than the bounds (the property's 4 KiB / nesting 64: stack depth is not decidable by this encoding), "
                        "allocation failure; termination inside the bound follows from the interpreter terminating with every repeat "
                        "iteration consuming input (a non-consuming iteration is reported as winnow's assert outcome)",
